@@ -13,7 +13,11 @@ from harness import ro_oracle as O
 
 THEOREMS = {
     'RsomeV.Props.C01': [
+        'RsomeV.C01.rc_sound',
+        'RsomeV.C01.eval_negRows',
+        'RsomeV.C01.rc_sound_eq',
     ],
+    'RsomeV.Props.C08': ['RsomeV.C08.cone_dual_weak'],
 }
 RULE = ("random ro models from a description grammar (1-3 decisions, 1-3 random components, optional LDR with random "
         "dependency mask, 1-3 scalar or vector robust rows with <=, >=, == senses, default and per-constraint sets: boxes "
